@@ -40,6 +40,7 @@ def install(B):
     reg("IntRange", lambda ip, a, k: Shape("intrange", a[0], a[1]))
     reg("Enum", lambda ip, a, k: Shape("enum", a[0]))
     reg("ClassOf", lambda ip, a, k: Shape("class", a[0]))
+    reg("Elem", lambda ip, a, k: Shape("elem", a[0], **k))
     reg("Instance", lambda ip, a, k: Shape("instance", a[0], **k))
     reg("MapOf", lambda ip, a, k: Shape("map", a[0], a[1]))
     reg("SetOf", lambda ip, a, k: Shape("pset", a[0]))
@@ -216,6 +217,12 @@ class Maker:
                     fs = ann_shape(ip, cls, ann)
                 vals[fname] = self.make(fs, f"{name}.{fname}", idx)
             return Rec(cls, vals)
+        if k == "elem":
+            attrib = self.make(sh.k.get("attrib", {}), name + ".attrib", idx)
+            base = self.make(sh.k["children"], name + ".nchildren", idx) if "children" in sh.k else 0
+            if isinstance(base, Sym):
+                self.side.append(base.t >= 0)
+            return ip.B.ElemV(sh.a[0], dict(attrib), base)
         if k == "instance":
             cls = resolve_class(ip, sh.a[0])
             return Rec(cls, {f: self.make(s, f"{name}.{f}", idx) for f, s in sh.k.items()}, mutable=True)
@@ -341,6 +348,8 @@ def to_json(v, model, max_seq=8):
     if isinstance(v, SizedV):
         n = model.eval(v.n, model_completion=True)
         return {"__bytes__": n.as_long() if z3.is_int_value(n) else 0}
+    if type(v).__name__ == "ElemV":
+        return {"__elem__": v.tag, "attrib": {k: to_json(x, model) for k, x in v.attrib.items()}, "children": [to_json(c, model) for c in v.children]}
     if isinstance(v, OpaqueStr):
         return "<str>"
     if isinstance(v, I.ClassV):
